@@ -155,6 +155,11 @@ def shape_obligations(hint_src, conf_src='BeartypeConf()', want=('C01', 'C02', '
                     add(f'C09.level.path{pi}', 'cost', pc, z3.BoolVal(False), 'C09', f'container {t_}: {seen_}, the hint allows {allowed_} per evaluation (one item / one key and its value per container nesting level)', extra=dict(allowed=allowed_))
                 else:
                     rec['obligations'].append(dict(name=f'C09.level.path{pi}', kind='cost', status='proved', time=0.0, backend='structural', prop='C09', where=f'{len(reads)} reads, each container object read at most as often as the container nodes of the hint applying to it allow'))
+            if 'C09' in want:
+                # "Iterables that are not collections are not iterated at all": every item read happens on an established Collection
+                for ei, (op, tgt, detail) in enumerate(s.effects):
+                    if op in ('iter', 'next') and tgt is not None:
+                        add(f'C09.noncollection_not_iterated.path{pi}.{ei}.{op}', 'cost', pc, M.inst(tgt, uni.const(cabc.Collection)), 'C09', 'an item is only ever read from an object known to be a Collection')
             if 'C10' in want:
                 for ei, (op, tgt, detail) in enumerate(s.effects):
                     if op not in ALLOWED_EFFECTS:
@@ -189,7 +194,7 @@ def summarize_model(m, uni, x, r):
     return out
 
 REPLAY_KIND = [('C01.post', 'C01'), ('C02.mustreject', 'C02.mustreject'), ('C02.reach', 'C02.reach'), ('C02.nonrandom0', 'C02.reach'),
-               ('C02.consistent', 'C02.consistent'), ('defined', 'defined'), ('C09.cost', 'C09'), ('C09.level', 'C09L'), ('C10.effect', 'C10'), ('frame', 'defined')]
+               ('C02.consistent', 'C02.consistent'), ('defined', 'defined'), ('C09.cost', 'C09'), ('C09.level', 'C09L'), ('C09.noncollection', 'C10'), ('C10.effect', 'C10'), ('frame', 'defined')]
 def try_replay(name, res, uni, x, r, hint_src, conf_src, extra):
     """concretise the refuting model (progressively weaker size bounds) and replay on the real code; first reproduction wins"""
     from . import concretise, replaylib
